@@ -1875,6 +1875,157 @@ def rule_zigzag_width(out, tier):
         out.undecided(rid, "anchor/ZigZagEncode", rel, "no zig-zag encoder with a sign shift found")
 
 
+_INT_TYPES = {"int32_t": (32, True), "uint32_t": (32, False), "int64_t": (64, True), "uint64_t": (64, False), "int": (32, True), "unsigned int": (32, False),
+              "long": (64, True), "unsigned long": (64, False), "long long": (64, True), "unsigned long long": (64, False), "size_t": (64, False),
+              "int16_t": (16, True), "uint16_t": (16, False), "short": (16, True), "unsigned short": (16, False)}
+
+
+def _src(n, text):
+    """source text of a node that lies in the header itself (no macro expansion)"""
+    r = n.get("range") or {}
+    b, e = r.get("begin", {}), r.get("end", {})
+    if "offset" not in b or "offset" not in e:
+        return ""
+    return text[b["offset"]:e["offset"] + e.get("tokLen", 0)]
+
+
+def _bare(t):
+    return " ".join((t or "").replace("const", " ").replace("&", " ").replace("volatile", " ").split())
+
+
+def rule_integer_dispatch(out, tier):
+    rid = "CW1"
+    out.rule(rid, "serializers.h WriteInteger/ReadInteger<T>: the varint routine receives a value of T's own signedness and of the routine's width — T itself only in a template "
+                  "constrained to sizeof(T) == width/8 (overload resolution then picks T's overload), otherwise a fixed-width type chosen under `if constexpr (std::is_signed_v<T>)` "
+                  "(an unsigned 16-bit value passed as is promotes to int and is zig-zag encoded)", 6)
+    roots, rc, err = dump(out.repo, "serializers.h")
+    rel = BIN + "/serializers.h"
+    if rc != 0 or not roots:
+        out.undecided(rid, "clang/serializers.h", rel, "clang could not parse the header: " + err[-300:])
+        return
+    try:
+        text = open(os.path.join(out.repo, rel), encoding="utf-8", errors="replace").read()
+    except OSError:
+        text = ""
+    for r in roots:
+        annotate_lines(r)
+    seen = set()
+    n = 0
+    for r in roots:
+        for td in walk(r):
+            if td.get("kind") != "FunctionTemplateDecl" or td.get("name") not in ("WriteInteger", "ReadInteger"):
+                continue
+            if td.get("id") in seen:
+                continue
+            seen.add(td.get("id"))
+            size = None
+            for c in td.get("inner") or []:
+                if c.get("kind") == "NonTypeTemplateParmDecl":
+                    m = re.search(r"sizeof\(T\) == (\d+)", (c.get("type") or {}).get("qualType", ""))
+                    if m:
+                        size = int(m.group(1))
+            fd = next((c for c in td.get("inner") or [] if c.get("kind") == "FunctionDecl" and body_of(c) is not None), None)
+            if fd is None or size is None:
+                continue
+
+            def visit(node, sign):
+                nonlocal n
+                if not isinstance(node, dict):
+                    return
+                k = node.get("kind")
+                inner = [c for c in (node.get("inner") or []) if isinstance(c, dict)]
+                if k == "IfStmt" and node.get("isConstexpr") and inner and "is_signed_v" in (_src(inner[0], text) or txt(inner[0]) or str(inner[0].get("name"))):
+                    neg = _src(inner[0], text).lstrip().startswith("!")
+                    if len(inner) > 1:
+                        visit(inner[1], (not neg))
+                    if len(inner) > 2:
+                        visit(inner[2], neg)
+                    return
+                if k in ("CXXMemberCallExpr", "CallExpr") and len(inner) >= 2:
+                    callee = inner[0].get("name") or ""
+                    if not callee:
+                        callee = _src(inner[0], text).split(".")[-1].split("->")[-1]
+                    m = re.match(r"(Write|Read)VarInt(32|64)$", callee)
+                    if m:
+                        n += 1
+                        width = int(m.group(2))
+                        at = _bare((inner[1].get("type") or {}).get("qualType", ""))
+                        key = "%s<sizeof %d>/%s/%s" % (td.get("name"), size, callee, {True: "signed", False: "unsigned", None: "any"}[sign])
+                        posn = "%s:%d" % (rel, node.get("_line", 0))
+                        if at in _INT_TYPES:
+                            w, sg = _INT_TYPES[at]
+                            if sign is None:
+                                out.bad(rid, key, posn, "%s is called with a %s for every T of %d bytes: the %s half of those types is written with the other half's encoding "
+                                        "(zig-zag for signed, plain for unsigned)" % (callee, at, size, "unsigned" if sg else "signed"))
+                            elif w != width or sg != sign:
+                                out.bad(rid, key, posn, "under is_signed_v<T> == %s the routine %s receives a %s" % (sign, callee, at))
+                            else:
+                                out.ok(rid, key, posn, "%s receives %s where T is %s" % (callee, at, "signed" if sign else "unsigned"))
+                        elif at in ("T", "<dependent type>"):
+                            if size * 8 == width:
+                                out.ok(rid, key, posn, "T itself, and sizeof(T) is the width of the routine: T's own overload is selected")
+                            else:
+                                out.bad(rid, key, posn, "a %d-byte T is handed to %s as it is: integral promotion turns it into int, the signed overload is selected and an unsigned value is "
+                                        "zig-zag encoded (twice the value on the wire)" % (size, callee))
+                        else:
+                            out.undecided(rid, key, posn, "argument of type `%s` not understood" % at)
+                for c in inner:
+                    visit(c, sign)
+            visit(body_of(fd), None)
+    if n == 0:
+        out.undecided(rid, "anchor/WriteInteger", rel, "no varint call found in WriteInteger/ReadInteger")
+
+
+def rule_shift_in_destination_type(out, tier):
+    rid = "CV1"
+    out.rule(rid, "coded_stream.h: where a varint is assembled (`value |= payload << shift` with a variable shift), the shift is computed in the type of the destination "
+                  "(`static_cast<T>(...) << shift`), never in a narrower fixed type whose result is widened afterwards", 2)
+    roots, rc, err = dump(out.repo, "coded_stream.h")
+    rel = BIN + "/coded_stream.h"
+    if rc != 0 or not roots:
+        out.undecided(rid, "clang/coded_stream.h", rel, "clang could not parse the header: " + err[-300:])
+        return
+    for r in roots:
+        annotate_lines(r)
+    seen = set()
+    n = 0
+    for r in roots:
+        for fn in walk(r):
+            if fn.get("kind") not in ("FunctionDecl", "CXXMethodDecl") or body_of(fn) is None or fn.get("id") in seen:
+                continue
+            seen.add(fn.get("id"))
+            for x in walk(body_of(fn)):
+                if not (x.get("kind") == "CompoundAssignOperator" and x.get("opcode") in ("|=", "+=", "^=")) and not (x.get("kind") == "BinaryOperator" and x.get("opcode") == "="):
+                    continue
+                inner = [c for c in (x.get("inner") or []) if isinstance(c, dict)]
+                if len(inner) != 2:
+                    continue
+                lt = _bare((inner[0].get("type") or {}).get("qualType", ""))
+                wide = lt in ("T", "<dependent type>") or (lt in _INT_TYPES and _INT_TYPES[lt][0] == 64)
+                if not wide:
+                    continue
+                for sh in walk(inner[1]):
+                    if sh.get("kind") != "BinaryOperator" or sh.get("opcode") != "<<":
+                        continue
+                    ops = [c for c in (sh.get("inner") or []) if isinstance(c, dict)]
+                    if len(ops) != 2:
+                        continue
+                    amount = ops[1]
+                    while amount.get("kind") in ("ImplicitCastExpr", "ParenExpr") and amount.get("inner"):
+                        amount = amount["inner"][0]
+                    if amount.get("kind") == "IntegerLiteral":
+                        continue
+                    n += 1
+                    st = _bare((sh.get("type") or {}).get("qualType", ""))
+                    key = "%s/%s %s ... << %s" % (fn.get("name"), txt(inner[0]), x.get("opcode"), txt(ops[1]))
+                    posn = "%s:%d" % (rel, sh.get("_line", 0))
+                    ok = st in ("T", "<dependent type>") or (st in _INT_TYPES and _INT_TYPES[st][0] == 64) or (lt in _INT_TYPES and st == lt)
+                    out.check(ok, rid, key, posn, "the shift is computed in `%s`" % st,
+                              "the destination is `%s` but the shift is computed in `%s`: bits shifted beyond 32 are lost before the result is widened — every 64-bit varint above 2^32 decodes wrongly" % (lt, st))
+    if n == 0:
+        out.undecided(rid, "anchor/varint assembly", rel, "no `value |= x << shift` found")
+
+
 def _nlohmann_include():
     for d in ("/usr/include", "/usr/local/include", "/root/miniconda/include", "/opt/conda/include"):
         if os.path.exists(os.path.join(d, "nlohmann", "json.hpp")):
@@ -2061,9 +2212,9 @@ def rule_no_swallowed_eof(out, tier):
 
 RULES = {
     "C16": [rule_coded_stream_bounds, rule_blocks, rule_fill_loops_end, rule_stream_reads_counted, rule_no_swallowed_eof],
-    "C01": [rule_coded_stream_bounds, rule_serializer_twins, rule_output_order, rule_reader_overwrites, rule_trivial_trait_set, rule_blocks, rule_zigzag_width],
+    "C01": [rule_coded_stream_bounds, rule_serializer_twins, rule_output_order, rule_reader_overwrites, rule_trivial_trait_set, rule_blocks, rule_zigzag_width, rule_integer_dispatch, rule_shift_in_destination_type],
     "C15": [rule_cxx_header, rule_ndjson_header],
     "C04": [rule_cxx_header, rule_output_order, rule_ndjson_header],
-    "C03": [rule_output_order, rule_reader_overwrites],
-    "C17": [rule_reader_overwrites, rule_blocks, rule_trivial_trait_set],
+    "C03": [rule_output_order, rule_reader_overwrites, rule_integer_dispatch, rule_shift_in_destination_type, rule_zigzag_width],
+    "C17": [rule_reader_overwrites, rule_blocks, rule_trivial_trait_set, rule_output_order],
 }
